@@ -592,10 +592,9 @@ def _lit(pairs, d, ctx):
             for v, out in pairs:
                 if type(v) is type(c) and type(v) is cls and v == c:
                     hits.append(out)
-        if len(hits) == 1:
+        if hits:
+            # the classes of the literal values are tried in the order of the values, as the alternatives of a union are
             return hits[0]
-        if len(hits) > 1:
-            raise Unspecified("datum coercible to several literal values")
     if dc in (list, dict):
         # one or more messages, text not documented
         raise Rejected(E([WILD]))
